@@ -25,7 +25,7 @@ theorem anyLive_false (live : Nat → Bool) : ∀ n, anyLive live n = false → 
 
 structure Inv (c : Cfg) (s : State) : Prop where
   np : s.panicked = false
-  deliv : ∀ i, i < c.n → c.items i = gotOf s.got i ++ held s.pc i ++ (s.ch i).buf ++ s.pend i
+  deliv : ∀ i, i < c.n → eitems c i = gotOf s.got i ++ held s.pc i ++ (s.ch i).buf ++ s.pend i
   dead : ∀ i, i < c.n → s.liveIn i = false → (s.ch i).closed = true ∧ (s.ch i).buf = []
   nilPc : ∀ i, s.pc = .nil i → i < c.n ∧ (s.ch i).closed = true ∧ (s.ch i).buf = []
   selLive : s.pc = .sel → anyLive s.liveIn c.n = true
@@ -48,23 +48,29 @@ theorem held_loopHead (c : Cfg) (live : Nat → Bool) (j : Nat) : held (loopHead
 theorem inv_init (c : Cfg) : Inv c (init c) := by
   unfold init
   refine ⟨rfl, ?_, ?_, ?_, ?_, ?_, ?_, ?_, ?_, ?_, ?_⟩
-  · intro i _; simp [held_loopHead, gotOf_nil, Chan.mk0]
-  · intro i _ h; simp at h
+  · intro i _
+    by_cases h : c.nilIn i = true <;> simp [held_loopHead, gotOf_nil, Chan.mk0, h]
+  · intro i _ h
+    have hn : c.nilIn i = true := by simpa using h
+    simp [hn]
   · intro i h
-    rcases loopHead_cases c (fun _ => true) with h' | h' <;> rw [h'.1] at h <;> cases h
+    rcases loopHead_cases c (fun i => !c.nilIn i) with h' | h' <;> rw [h'.1] at h <;> cases h
   · intro h
-    rcases loopHead_cases c (fun _ => true) with h' | h'
+    rcases loopHead_cases c (fun i => !c.nilIn i) with h' | h'
     · exact h'.2
     · rw [h'.1] at h; cases h
   · intro h i hin
-    rcases loopHead_cases c (fun _ => true) with h' | h'
+    rcases loopHead_cases c (fun i => !c.nilIn i) with h' | h'
     · rw [h'.1] at h; rcases h with h | h <;> cases h
-    · have := anyLive_false _ c.n h'.2 i hin; simp at this
-  · rcases loopHead_cases c (fun _ => true) with h' | h' <;> simp [h'.1]
-  · intro i h; simp [Chan.mk0] at h
+    · exact anyLive_false _ c.n h'.2 i hin
+  · rcases loopHead_cases c (fun i => !c.nilIn i) with h' | h' <;> simp [h'.1]
+  · intro i h
+    by_cases hn : c.nilIn i = true
+    · simp [eitems, hn]
+    · simp [Chan.mk0, hn] at h
   · intro h; simp at h
-  · intro i; rfl
-  · intro i; simp [Chan.mk0]
+  · intro i; by_cases hn : c.nilIn i = true <;> simp [Chan.mk0, hn]
+  · intro i; by_cases hn : c.nilIn i = true <;> simp [Chan.mk0, hn]
 
 theorem inv_pSend (c : Cfg) (s s' : State) (i : Nat) (hi : Inv c s) (hs : step c s (.pSend i) = some s') :
     Inv c s' := by
@@ -423,7 +429,7 @@ theorem tags_init (c : Cfg) :
   · intro p hp; cases hp
   · intro i v h
     simp only [init] at h
-    rcases loopHead_cases c (fun _ => true) with h' | h' <;> rw [h'.1] at h <;> cases h
+    rcases loopHead_cases c (fun i => !c.nilIn i) with h' | h' <;> rw [h'.1] at h <;> cases h
 
 theorem tags_reachable (c : Cfg) (s : State) (h : (lts c).Reachable s) : ∀ p, p ∈ s.got → p.1 < c.n :=
   (Lts.invariant (lts c) (fun s => (∀ p, p ∈ s.got → p.1 < c.n) ∧ (∀ i v, s.pc = .send i v → i < c.n))
